@@ -119,6 +119,14 @@ def run_impl(inp, work):
             if fp is not None:
                 out['foreign_pos_matrix'] = fp.tolist()
                 out['foreign_pos'] = flat(arr, h5_pos=np.ascontiguousarray(fp))
+        # one-sided requests with the array arranged the wrong way round ([spec..., pos...]): shape-incompatible
+        # whenever the axes that would have to hold the supplied side hold another number of points
+        if inp['bad'] is None and not inp['squeeze'] and nd.ndim >= 2:
+            mv_p, mv_s = np.moveaxis(nd, -1, 0), np.moveaxis(nd, 0, -1)
+            out['moved_pos_shape'], out['moved_pos_flat'] = list(mv_p.shape), gen.tokens(mv_p).ravel().tolist()
+            out['moved_spec_shape'], out['moved_spec_flat'] = list(mv_s.shape), gen.tokens(mv_s).ravel().tolist()
+            out['moved_pos'] = flat(mv_p, h5_pos=conv(hp))
+            out['moved_spec'] = flat(mv_s, h5_spec=conv_s(hs))
         # second half of the round trip: reshaping the flattened matrix again
         if 'err' not in out['both'] and inp['bad'] is None and list(arr.shape) == list(nd.shape):
             two_d = np.array(out['both']['flat'], dtype=np.float64).reshape(out['both']['shape'])
@@ -207,7 +215,21 @@ def oracle(inp, obs):
             if key in obs and 'err' not in obs[key]:
                 fails.append('incompatible-%s: a one-sided request with the index matrix of another grid (a dimension size '
                              'that does not occur in the array) returned a matrix instead of raising' % key)
-    else:
+    # one-sided requests, any array: the leading len(pos sizes) axes must hold the positions (the trailing
+    # len(spec sizes) axes the spectroscopic points) of the supplied matrix; when their extent is another number of
+    # points the request is shape-incompatible and must raise whatever else the array looks like
+    kp_, ks_ = len(ds['pos']['sizes']), len(ds['spec']['sizes'])
+    for key, shp, is_pos in (('pos_only', obs['arr_shape'], True), ('spec_only', obs['arr_shape'], False),
+                             ('moved_pos', obs.get('moved_pos_shape'), True), ('moved_spec', obs.get('moved_spec_shape'), False)):
+        if key not in obs or shp is None or 'err' in obs[key] or (inp['squeeze'] and key.endswith('_only')):
+            continue
+        held = int(np.prod(shp[:kp_])) if is_pos else int(np.prod(shp[len(shp) - ks_:]))
+        if len(shp) < (kp_ if is_pos else ks_) or held != (n if is_pos else m):
+            fails.append('incompatible-one-sided-%s: the %s axes of the array (shape %s) hold %d points, the supplied %s '
+                         'matrix %d, and a matrix of shape %s was returned instead of raising'
+                         % (key, 'leading' if is_pos else 'trailing', shp, held,
+                            'position' if is_pos else 'spectroscopic', n if is_pos else m, obs[key]['shape']))
+    if inp['bad'] is not None:
         # (with a single matrix the other side is inferred from the array, so only the two-matrix request can
         # detect an element-count mismatch)
         for key in ('both', 'both_dask_data'):
@@ -238,6 +260,9 @@ def model_requests_obs(inp, obs):
         reqs.append(dict(base, pos=None, spec=obs['foreign_spec_matrix']))
     if 'foreign_pos' in obs:
         reqs.append(dict(base, pos=obs['foreign_pos_matrix'], spec=None))
+    if 'moved_pos' in obs:
+        reqs.append({'op': 'rs.from_nd', 'shape': obs['moved_pos_shape'], 'flat': obs['moved_pos_flat'], 'pos': pos, 'spec': None})
+        reqs.append({'op': 'rs.from_nd', 'shape': obs['moved_spec_shape'], 'flat': obs['moved_spec_flat'], 'pos': None, 'spec': spec})
     return reqs
 
 
@@ -245,7 +270,8 @@ def model_compare(inp, obs, resp):
     if 'nd_err' in obs:
         return []
     notes = []
-    keys = ['both', 'pos_only', 'spec_only'] + [k for k in ('foreign_spec', 'foreign_pos') if k in obs]
+    keys = ['both', 'pos_only', 'spec_only'] + [k for k in ('foreign_spec', 'foreign_pos') if k in obs] + \
+        (['moved_pos', 'moved_spec'] if 'moved_pos' in obs else [])
     for key, r in zip(keys, resp):
         o = obs[key]
         if ('err' in o) != ('err' in r):
